@@ -437,7 +437,7 @@ pub fn id_oracle(c: &IdCase) -> Verdict {
     Verdict::Pass(CaseInfo::nt(fp(&(format!("{:?}", c.id), c.hash1, c.hash2))).class("id-eq-hash-ord"))
 }
 
-fn strategy() -> impl Strategy<Value = Case> {
+pub fn strategy() -> impl Strategy<Value = Case> {
     let cfg = GenCfg { depth: 4, size: 24, heavy: false, floats: false, ..GenCfg::std() };
     let step = prop_oneof![
         2 => Just(Step::Clone),
@@ -476,7 +476,7 @@ fn strategy() -> impl Strategy<Value = Case> {
         .prop_map(|(value, choices, legacy, steps)| Case { value, choices, legacy, steps })
 }
 
-fn id_strategy() -> impl Strategy<Value = IdCase> {
+pub fn id_strategy() -> impl Strategy<Value = IdCase> {
     (prop_oneof![arb_pid(), arb_port(), arb_ref(false)], any::<u8>(), any::<u8>(), arb_choices(4))
         .prop_map(|(id, hash1, hash2, tweak)| IdCase { id, hash1, hash2, tweak })
 }
@@ -491,8 +491,16 @@ pub fn run(run: &mut Run) {
     ];
     run.prop("reemit", strategy, run.tier.pick(25_000, 1_000_000), oracle);
     run.prop("eq-hash-ord", id_strategy, run.tier.pick(10_000, 300_000), id_oracle);
+    if run.tier == crate::engine::Tier::Thorough {
+        // coverage-guided byte fuzzing of the same oracle (libFuzzer, structure-aware through fuzzde); see fuzzbridge.rs
+        crate::fuzzbridge::campaign(run, "c10", 3_000_000, 400);
+    }
+    if run.tier == crate::engine::Tier::Thorough {
+        // coverage-guided byte fuzzing of the same oracle (libFuzzer, structure-aware through fuzzde); see fuzzbridge.rs
+        crate::fuzzbridge::campaign(run, "c10id", 3_000_000, 400);
+    }
 }
 
 pub fn replays() -> Vec<ReplayEntry> {
-    vec![replay_entry("reemit", oracle), replay_entry("eq-hash-ord", id_oracle)]
+    vec![replay_entry("fuzz:c10", crate::fuzzbridge::eval_input), replay_entry("fuzz:c10id", crate::fuzzbridge::eval_input), replay_entry("reemit", oracle), replay_entry("eq-hash-ord", id_oracle)]
 }
